@@ -439,6 +439,26 @@ def run(ctx):
 
     check_snapshots(ctx, ms)
 
+    # ---------------- R8 a definition is restored only after the leaving file's own shadow entries were dropped
+    ctx.rule('C18.R8', 'in scan_policies every restore_or_delete_policy(p) is preceded on all paths by disassociate_policy_and_file for the file being processed - for p itself, or for every key of the shadow cache: otherwise the definition restored can be the very one the file just stopped providing')
+    sg, srd = graphs['scan_policies']
+    rcalls = [(n, c) for n, c in call_nodes(sg, 'self.restore_or_delete_policy')]
+    dcalls = [(n, c) for n, c in call_nodes(sg, 'self.disassociate_policy_and_file')]
+    ctx.count('restore_calls_in_scan', len(rcalls), 2)
+    for rn_, rc_ in rcalls:
+        okord = False
+        for dn_, dc_ in dcalls:
+            same_p = rc_.args and dc_.args and U(rc_.args[0]) == U(dc_.args[0]) and [d[2] for d in srd.reaching(rn_, U(rc_.args[0]))] == [d[2] for d in srd.reaching(dn_, U(dc_.args[0]))] if isinstance(rc_.args[0], ast.Name) else False
+            if same_p and sg.dominates(dn_, rn_):
+                okord = True
+            # or: an earlier loop over all cache keys that disassociates the file, completed before this call
+            for lp in dn_.loops[-1:]:
+                head = [x for x in sg.nodes if x.kind == 'loop' and x.stmt is lp]
+                if head and sg.dominates(head[0], rn_) and lp not in rn_.loops and isinstance(lp.iter, ast.Call) and isinstance(lp.iter.func, ast.Attribute) and lp.iter.func.attr == 'keys' \
+                        and struct_of(lp.iter.func.value) == 'policy_cache':
+                    okord = True
+        ctx.check(okord, 'C18.R8', 'PolicyDirectoryMonitor.scan_policies|restore-after-disassociate@%s' % short(rc_, 40), '%s:%s PolicyDirectoryMonitor.scan_policies' % (MONITOR, rc_.lineno),
+                  'the file is disassociated from the name before the name is restored', 'restore_or_delete_policy runs before (or without) the disassociation of the file that stopped defining the name: the entry popped from the shadow stack can be that file\'s own stale definition')
     # ---------------- R7 no structure is modified while it is being iterated
     ctx.rule('C18.R7', 'no list or dict of the monitor is structurally modified (remove/pop/insert/append/del) inside a for loop that iterates over that very object: elements are skipped (or the iteration fails), so stale shadow entries survive. Iterating a copy (list(x), x[:], a comprehension) or <DictProxy>.keys() (a list, by the recorded assumption) is fine')
     n_it = 0
